@@ -1346,6 +1346,18 @@ fn main() {
                             }
                             Err(e) => {
                                 last = seek_err(&e);
+                                // a rejected seek must leave the cursor on its last verified result: the cursor still
+                                // answers for tick t-1 (seek_to(t-1) is a no-op Ok) so what it exposes there must be
+                                // exactly the original tick t-1
+                                let back = cur.seek_to(wt(t - 1), &view, &base_state);
+                                let c = Core::of(cur.materialized_state(), cur.current_tick().as_u64(), &mut intern);
+                                if back.is_ok() && ((t as usize - 1) >= orig.len() || c != orig[t as usize - 1]) {
+                                    flags.push(sig("step", &alt.class, "failed-seek-exposes-unverified-state"));
+                                    if !quiet {
+                                        println!("V id={id} w={w} alt={} failed-step={t} cursor-now={} want={}", alt.name, c.render(),
+                                            orig.get(t as usize - 1).map(Core::render).unwrap_or_else(|| "-".into()));
+                                    }
+                                }
                                 break;
                             }
                         }
